@@ -93,6 +93,11 @@ InvOKx(o) ==
   \* vec_graph::Graph::neighbor_at(v, 0..degree) walks the neighbours
   /\ (Has(x, "nat") => Len(x.nat) = n /\ \A i \in 1..n : Len(x.nat[i]) = o.adj[i].deg /\ ToSet(x.nat[i]) = ToSet(o.adj[i].nbrs))
 
+\* the minimum for the tag-space comparison to be evaluable at all
+Sane(o) == /\ Distinct([i \in 1..Len(o.verts) |-> o.verts[i].name]) /\ Distinct([i \in 1..Len(o.verts) |-> o.verts[i].tag])
+           /\ \A i \in 1..Len(o.edges) : {o.edges[i][1], o.edges[i][2]} \subseteq Names(o)
+           /\ \A i \in 1..Len(o.verts) : o.verts[i].tag >= 0
+
 \* ---------- renaming to tag space ----------
 TagOf(o, n) == o.verts[CHOOSE i \in 1..Len(o.verts) : o.verts[i].name = n].tag
 TagOrDead(o, n) == IF n \in Names(o) THEN TagOf(o, n) ELSE -1
@@ -272,6 +277,10 @@ Step(e) ==
     [] e.k = "op" ->
          IF Has(e, "obs_panic") THEN
            viol' = Append(viol, <<l, "NoPanic", "observation">>) /\ UNCHANGED <<a, crd, holes, freshv, pv, pvi, asides, drift, stats>>
+         ELSE IF ~(Sane(e.ov) /\ Sane(e.oh)) THEN
+           \* names / tags not unique or an edge to an unlisted vertex: nothing below can be evaluated on such an observable
+           viol' = Append(viol, <<l, "InvOK", IF Sane(e.ov) THEN "hash" ELSE "vec", e.op.op, "insane">>)
+           /\ UNCHANGED <<a, crd, holes, freshv, pv, pvi, asides, drift, stats>>
          ELSE
          LET op == e.op
              m == ModelStep(op)
